@@ -129,6 +129,7 @@ class Router(frappy.protocol.dispatcher.Dispatcher):
 
                 node.register_callback(None, nodeStateChange)
                 logger.warning('can not connect to node %r', node.nodename)
+        self.nodes = nodes
 
     def handle_describe(self, conn, specifier, data):
         if len(self.nodes) == 1 and not self.secnode.modules:
